@@ -1,7 +1,7 @@
 """C01: co_exceptiontable (Python >= 3.11: which instructions a try block protects) is behaviour but is not hashed: moving a call out of the
 protected region (try/except -> try/except/else) gives identical co_code and an identical fn_code_hash; same for co_posonlyargcount."""
 import sys
-sys.path.insert(0, "/repo")
+sys.path.insert(0, (sys.argv[1] if len(sys.argv) > 1 else __import__("os").environ.get("PYVC_REPO", "/repo")))
 from twosigma.memento.code_hash import fn_code_hash
 def run(fn):
     calls = []
